@@ -181,6 +181,13 @@ func (v array_[V]) SetValues(index int, values Sequential[V]) {
 	var size = values.GetSize()
 	var first = v.toZeroBased(index)
 	var last = v.toZeroBased(index+size-1) + 1
+	if last-first != size {
+		// A negative index plus the size wrapped around to the positive range.
+		panic(fmt.Sprintf(
+			"The specified values extend beyond the end of the array: %v values at index %v",
+			size,
+			index))
+	}
 	copy(v[first:last], values.AsArray())
 }
 
